@@ -1,6 +1,7 @@
 import KoordVerif.Common.Proto
 import KoordVerif.Model.C14
 import KoordVerif.Model.C14Entry
+import KoordVerif.Model.C14Proxy
 /-
 Driver for C14.  A case is a history on one plugin instance:
   rule node <pct>      node meta callback, annotation "<pct/100>" (pct > 0) or absent (pct = -100)
@@ -14,6 +15,13 @@ Driver for C14.  A case is a history on one plugin instance:
                        one pod through all six entry paths of the protocol package (ann = annotation shape 0..7,
                        5 = the webhook's dump of this pod), cgroup v1/v2, initial file contents s0 q0 m0
   cb <0|1>             rule callback (0 = node SLO, 1 = node meta) on the pod of the last `entry` as an existing pod
+  cricreate <period quota shares mem cpus mems> <k> <period quota shares mem cpus mems>
+                       runtime-proxy CreateContainer: resources of the request, hook outcome k (0 no response, 1 response
+                       without resources, 2 response with the resources that follow); cpuset strings are codes, 0 = ""
+  criupdate <…same…>   runtime-proxy UpdateContainerResources on the container of this case
+  crifailover          the container becomes known by fail-over (ParseContainer: no resources)
+  cristop              StopContainer (checkpoint deleted)
+                       output per cri step: `hk err|none|<6>` (what the hook sees) and `out <6>` (what the runtime gets)
 Output: `upd <0|1>` per rule event; for a pod `eff <enabled> <pct>`, `pod …`, one `ctr …` per container.
 Float parts use Lean's runtime Float (IEEE binary64, as Go): |a-b| >= 0.01 and ⌈q / ratio⌉.
 -/
@@ -62,6 +70,7 @@ structure St where
   out  : List String
   last : Option Entry
   cb   : Option (Files × List Files) := none
+  ck   : Ck := none
 
 def annOf (code : Int) (pod : List (Option Ctr)) : Option Ann :=
   match code with
@@ -181,8 +190,44 @@ def stepLine (st : St) (line : String) : St :=
     | _, _ => emit ["bad-op"]
   | _ => emit ["bad-op"]
 
+def showCri (r : CriRes) : String := s!"{r.period} {r.quota} {r.shares} {r.mem} {r.cpus} {r.mems}"
+
+def showProxy (o : ProxyOut) : List String :=
+  [match o.hook with
+   | none => "hk err"
+   | some none => "hk none"
+   | some (some r) => "hk " ++ showCri r,
+   "out " ++ showCri o.out]
+
+def criArgs : List Int → Option (CriRes × HookResp)
+  | [p, q, s, m, c, e, k, hp, hq, hs, hm, hc, he] =>
+    if c < 0 || e < 0 || hc < 0 || he < 0 then none else
+    let a : CriRes := ⟨p, q, s, m, c.toNat, e.toNat⟩
+    let b : CriRes := ⟨hp, hq, hs, hm, hc.toNat, he.toNat⟩
+    if k == 0 then some (a, .noResp) else if k == 1 then some (a, .noRes) else if k == 2 then some (a, .res b) else none
+  | _ => none
+
+def stepCri (st : St) (line : String) : Option St :=
+  match toks line with
+  | "cricreate" :: rest =>
+    match (ints? rest).bind criArgs with
+    | some (a, resp) => let (ck', o) := proxyCreate a resp; some { st with ck := ck', out := st.out ++ showProxy o }
+    | none => none
+  | "criupdate" :: rest =>
+    match (ints? rest).bind criArgs with
+    | some (a, resp) => let (ck', o) := proxyUpdate st.ck a resp; some { st with ck := ck', out := st.out ++ showProxy o }
+    | none => none
+  | ["crifailover"] => some { st with ck := some none }
+  | ["cristop"] => some { st with ck := none }
+  | _ => none
+
+def stepLine2 (st : St) (line : String) : St :=
+  match stepCri st line with
+  | some st' => st'
+  | none => stepLine st line
+
 def runCase (lines : List String) : List String :=
-  (lines.foldl stepLine { rule := Rule.init, out := [], last := none }).out
+  (lines.foldl stepLine2 { rule := Rule.init, out := [], last := none }).out
 
 end KoordVerif.C14
 
